@@ -160,7 +160,7 @@ func (w *c28World) Setup(s *dsim.Sim) {
 		}
 	}
 	w.maxOps = 2 + t.Draw(14, "max-ops")
-	s.ArmFraction([]int{0, 0, 50, 100}[t.Draw(4, "arm-pct")], []string{"floodsub/"})
+	s.ArmFraction([]int{0, 0, 50, 100}[t.Draw(4, "arm-pct")], []string{"floodsub/", "go:pubsub/floodsub/"})
 }
 
 // reconnect (re)establishes edge k if it is missing, both routers are up and no explicit
